@@ -219,8 +219,16 @@ impl Db {
         Ok(())
     }
 
+    /// executes the text as given (no compatibility patches)
+    pub fn query_raw(&self, sql: &str) -> Result<QueryResult, String> {
+        self.query_text(sql.to_string())
+    }
+
     pub fn query(&self, sql: &str) -> Result<QueryResult, String> {
-        let sql = patch_bare_offset(&patch_values_alias(sql));
+        self.query_text(patch_bare_offset(&patch_values_alias(sql)))
+    }
+
+    fn query_text(&self, sql: String) -> Result<QueryResult, String> {
         let mut st = self.conn.prepare(&sql).map_err(|e| format!("{e}"))?;
         let names: Vec<String> = st.column_names().iter().map(|s| s.to_string()).collect();
         let n = names.len();
